@@ -223,9 +223,23 @@ class _:
     note = "self-composition of the loop body over two distinct tags"
 
 
-def _set_iteration_sites(mi):
+def _set_attributes(modules):
+    """names of attributes that are assigned a set somewhere in the package (self.x = set() ...)"""
+    import ast
+
+    names = set()
+    for mi in modules:
+        for n in ast.walk(mi.tree):
+            if isinstance(n, ast.Assign) and len(n.targets) == 1 and isinstance(n.targets[0], ast.Attribute):
+                v = n.value
+                if isinstance(v, (ast.Set, ast.SetComp)) or (isinstance(v, ast.Call) and ast.unparse(v.func) in ("set", "frozenset")):
+                    names.add(n.targets[0].attr)
+    return names
+
+
+def _set_iteration_sites(mi, setattrs=()):
     """(function, line, text) of every place where the iteration order of a set can flow into a value:
-    for loops, comprehensions, star-unpacking, list()/tuple()/join() over a name bound to a set"""
+    for loops, comprehensions, star-unpacking, list()/tuple()/join() over a name or attribute bound to a set"""
     import ast
 
     sites = []
@@ -243,6 +257,8 @@ def _set_iteration_sites(mi):
                 if f in ("set", "frozenset") or f.endswith(".fragment_tags") or f.endswith("fragment_junction_set"):
                     return True
             if isinstance(e, ast.Name) and e.id in setnames:
+                return True
+            if isinstance(e, ast.Attribute) and e.attr in setattrs:
                 return True
             if isinstance(e, ast.BinOp) and isinstance(e.op, (ast.BitOr, ast.BitAnd, ast.Sub, ast.BitXor)):
                 return is_set_expr(e.left) or is_set_expr(e.right)
@@ -287,12 +303,15 @@ def _no_other_set_iteration(mi, fn):
 
     root = os.path.join(source.REPO_SRC, "tola")
     found = []
+    mods = []
     for path in sorted(glob.glob(os.path.join(root, "**", "*.py"), recursive=True)):
         mod = os.path.relpath(path, source.REPO_SRC)[:-3].replace(os.sep, ".")
         if mod.endswith("__init__"):
             continue
-        m = source.load(mod)
-        for key, line, text in _set_iteration_sites(m):
+        mods.append((mod, source.load(mod)))
+    setattrs = _set_attributes([m for _, m in mods])
+    for mod, m in mods:
+        for key, line, text in _set_iteration_sites(m, setattrs):
             if (mod, key, text) not in SANCTIONED_SET_ITERATIONS:
                 found.append(f"{mod}:{key}:L{line}: {text}")
     if found:
